@@ -33,7 +33,12 @@ RULE = ("histories: screens with 1-8 plates (1..14 rows quick, ..40 thorough; ev
         "every pair of subsets for <= 3 plates.  constructor stream: mixed plate / observations without mask / nothing / mask "
         "without observations / valid uniform mask.  set_observed stream: random selections (right, wrong length), values of "
         "length count / 1 / wrong.  Non-trivial history: >= 2 plates and a successful reveal that newly reveals a plate "
-        "while another plate stays hidden.")
+        "while another plate stays hidden.  Non-mutation (aliasing) clause: every screen object is snapshotted before an "
+        "operation and compared after it, every screen of the chain is compared again at the end of the history and (half of the "
+        "histories) with the h5 copy saved when it was created; histories BRANCH: at 45% of the library reveals a second, different "
+        "reveal request is first executed on the SAME screen object and judged on its own (observed-before plus that request only, "
+        "counter drop of that branch), and after half of the histories an EARLIER screen of the chain is revealed again; all "
+        "branches go to the model as histories of their own (signature C12:input-mutated).")
 
 TAME_DOSES = [0.0, -0.0, 1.0, 2.5, 0.1, 3.0, 10.0, -1.0]
 NONZERO = [1.0, 0.5, 0.25, 0.75, 1e-300, 0.3333333333333333, 0.9, 0.1, 2.0, -1.5, 5e-324, 0.7000000000000001]
@@ -54,6 +59,7 @@ SIG_CLI = "C12:cli-differs-from-library"
 SIG_CTOR_MIXED = "C12:ctor-accepts-mixed-plate"
 SIG_CTOR = "C12:ctor-defaults"
 SIG_SETOBS = "C12:set-observed"
+SIG_INPUT = "C12:input-mutated"
 
 
 # ------------------------------------------------------------------------------------------------
@@ -284,6 +290,31 @@ def choose_op(rng, snap):
 # histories
 # ------------------------------------------------------------------------------------------------
 
+def choose_reveal(rng, snap):
+    """a library reveal request (used for branches: a second call on the same screen object)"""
+    for _ in range(20):
+        op = choose_op(rng, snap)
+        if op[0] == "r":
+            return op[1:]
+    return "-"
+
+
+def check_input(res, case, obj, snap, what):
+    """the non-mutation clause: the screen object an operation was called on is bit-identical afterwards"""
+    try:
+        now = observables(obj)
+    except Exception as e:
+        res.fail("%s leaves the screen it was called on unreadable" % what, case, "%s: %s" % (type(e).__name__, e),
+                 "the input screen unchanged", signature=SIG_INPUT)
+        return False
+    d = first_diff(snap, now)
+    if d is not None:
+        res.fail("%s modifies the screen it was called on" % what, case, {"field": d[0], "input_after": d[2]},
+                 {"field": d[0], "input_before": d[1]}, signature=SIG_INPUT)
+        return False
+    return True
+
+
 def save_load(s, tmp, name="step.h5"):
     from batchie.data import Screen
     fn = os.path.join(tmp, name)
@@ -358,12 +389,27 @@ def run_history(case, tmp, res, rng=None, n_steps=0, meta_p=0.5):
     attempts = 0
     raw = raw_with_bits(case)
     ops = case["ops"]
+    branches = case.setdefault("branches", {})     # step index -> ids of an extra reveal on the SAME input object
+    chain = []                                     # every screen object of the history with its snapshot
+    keep_files = True if rng is None else rng.random() < 0.5
 
     def at(k):
         c = dict(case)
         c["ops"] = list(ops[:k + 1]) if k >= 0 else []
         c["step"] = k
+        c["branches"] = {kk: v for kk, v in branches.items() if int(kk) <= k}
+        c.pop("late", None)
         return c
+
+    def remember(obj, snap_, tlen, olen):
+        fn = None
+        if keep_files and len(snap_["sample_names"]) > 0:
+            fn = os.path.join(tmp, "chain_%d.h5" % len(chain))
+            try:
+                obj.save_h5(fn)
+            except Exception:
+                fn = None
+        chain.append({"obj": obj, "snap": snap_, "tlen": tlen, "olen": olen, "file": fn})
 
     try:
         cur = S.build(raw)
@@ -375,6 +421,7 @@ def run_history(case, tmp, res, rng=None, n_steps=0, meta_p=0.5):
     if raw["obs"] is not None and snap["observations"] != [S.bits(x) for x in raw["obs"]]:
         res.fail("constructor changes observation values", at(-1), snap["observations"], [S.bits(x) for x in raw["obs"]], signature=SIG_CTOR)
     check_uniform(res, at(-1), snap, "after construction")
+    remember(cur, snap, 1, 0)
     meta = None
     k = 0
     while True:
@@ -403,6 +450,24 @@ def run_history(case, tmp, res, rng=None, n_steps=0, meta_p=0.5):
                 res.count("metadata-cli")
             except Exception as e:
                 res.fail("extract_screen_metadata fails on a saved screen", at(k - 1), "%s: %s" % (type(e).__name__, e), "counters", signature=SIG_RAISES)
+        # ---- branch: another reveal on the SAME screen object, before the step itself ------------
+        if kind == "r":
+            if rng is not None and rng.random() < 0.45:
+                branches[str(k)] = choose_reveal(rng, snap)
+                c = at(k)
+            if str(k) in branches:
+                bids = parse_ids(branches[str(k)])
+                bexc = bnew = bafter = None
+                try:
+                    bnew = reveal_plates(cur, bids)
+                    bafter = observables(bnew)
+                except Exception as e:
+                    bexc = e
+                res.count("branch.reveal-on-same-object")
+                judge_reveal(res, c, snap, bids, bafter, bexc, "reveal_plates (first of two calls on the same screen object)")
+                check_input(res, c, cur, snap, "reveal_plates")
+                info["segments"].append((list(ops[:k]) + ["r" + branches[str(k)]],
+                                         trace + [S.err_tok(bexc) if bexc is not None else show_stage(bnew)], "branch"))
         try:
             if kind == "m":
                 new = mask_screen(cur)
@@ -452,6 +517,8 @@ def run_history(case, tmp, res, rng=None, n_steps=0, meta_p=0.5):
             except Exception as e:
                 exc = e
         # ---- oracles ------------------------------------------------------------------------
+        check_input(res, c, cur, snap, {"m": "mask_screen", "u": "unmask_screen", "s": "save_h5 + load_h5", "r": "reveal_plates",
+                                        "c": "reveal_plate.main() / save_h5"}[kind])
         if kind in "rc":
             ids = parse_ids(op[1:])
             via = "reveal_plates" if kind == "r" else "reveal_plate.main()"
@@ -488,7 +555,7 @@ def run_history(case, tmp, res, rng=None, n_steps=0, meta_p=0.5):
             if rng is not None and kind in "rc" and isinstance(exc, ValueError) and attempts < n_steps:
                 # a refused reveal leaves the screen as it was: this history (ending in the refusal) goes to the model
                 # as a segment of its own, the run goes on without the refused step
-                info["segments"].append((list(ops), trace + stages + [S.err_tok(exc)]))
+                info["segments"].append((list(ops), trace + stages + [S.err_tok(exc)], "refusal"))
                 ops.pop()
                 continue
             trace.extend(stages)
@@ -519,6 +586,45 @@ def run_history(case, tmp, res, rng=None, n_steps=0, meta_p=0.5):
             trace.append(show_stage(new))
         cur, snap = new, after
         k += 1
+        remember(cur, snap, len(trace), k)
+    # ---- end of history: every earlier screen object is still what it was, and equals its saved copy ----------
+    cend = at(len(ops) - 1)
+    for j, ent in enumerate(chain):
+        if not check_input(res, dict(cend, chain_index=j), ent["obj"], ent["snap"], "a later operation of the history (screen %d of the chain)" % j):
+            break
+        if ent["file"] is not None:
+            try:
+                back = observables(Screen.load_h5(ent["file"]))
+                d = first_diff(ent["snap"], back)
+            except Exception as e:
+                d = ("load", None, "%s: %s" % (type(e).__name__, e))
+            if d is not None:
+                res.fail("a screen of the history differs from the copy saved when it was created", dict(cend, chain_index=j),
+                         {"field": d[0], "saved_copy": d[2]}, {"field": d[0], "snapshot": d[1]}, signature=SIG_CHANGED)
+                break
+    # ---- late branch: reuse an EARLIER screen object after the later operations ---------------------------------
+    late = case.get("late") if rng is None else None
+    if rng is not None and len(chain) >= 2 and rng.random() < 0.5:
+        j = rng.randrange(len(chain) - 1)
+        late = [j, choose_reveal(rng, chain[j]["snap"])]
+        case["late"] = late
+    if late is not None and late[0] < len(chain):
+        ent = chain[late[0]]
+        lids = parse_ids(late[1])
+        cl = dict(cend, late=list(late))
+        lexc = lnew = lafter = None
+        try:
+            lnew = reveal_plates(ent["obj"], lids)
+            lafter = observables(lnew)
+        except Exception as e:
+            lexc = e
+        res.count("branch.reuse-earlier-screen")
+        judge_reveal(res, cl, ent["snap"], lids, lafter, lexc, "reveal_plates (on an earlier screen of the history, after later operations)")
+        check_input(res, cl, ent["obj"], ent["snap"], "reveal_plates")
+        if lafter is not None:
+            check_uniform(res, cl, lafter, "after the late reveal")
+        info["segments"].append((list(ops[:ent["olen"]]) + ["r" + late[1]],
+                                 trace[:ent["tlen"]] + [S.err_tok(lexc) if lexc is not None else show_stage(lnew)], "late-branch"))
     info["failed"] = len(res.oracle_failures) > info["failed_before"]
     return trace, info
 
@@ -755,8 +861,8 @@ def one_history(ctx, res, tie, tmp, case, rng=None, n_steps=0, where="C12:hist")
     res.count("plates.%d" % len(set(case["raw"]["pnames"])))
     if trace[-1].startswith("err:"):
         res.count("history.ended-by-refusal")
-    for seg_ops, seg_trace in info["segments"]:
-        res.count("history.refusal-then-continued")
+    for seg_ops, seg_trace, seg_kind in info["segments"]:
+        res.count("history.segment." + seg_kind)
         seg = dict(case)
         seg["ops"] = seg_ops
         tie.add(where, hist_line(seg), seg_trace, seg, split=True)
